@@ -37,6 +37,10 @@ PATTERNS = [  # (pattern, first variable(s) that must not use PREV-based DEFINE)
     seq(var("A"), q(var("B"), 0, -1), var("C")), seq(var("A"), q(var("B"), 0, 1), var("C")), q(var("A"), 2, -1), q(var("A"), 1, 3), q(var("A"), 2, 4),
     seq(var("A"), q(var("B"), 1, 3), var("C")), seq(q(var("A"), 1, -1), var("B")), seq(var("A"), alt(var("B"), var("C"))), seq(var("A"), var("B"), var("C")),
     seq(var("S"), q(var("A"), 1, 3), var("E")),
+    # quantified GROUPS: an optional / repeated tail of several variables that starts and then fails leaves the match found so far
+    seq(var("A"), q(seq(var("B"), var("C")), 0, 1)), seq(var("A"), q(seq(var("B"), var("C")), 0, -1)), seq(var("A"), q(seq(var("B"), var("C")), 0, 1), var("D")),
+    seq(var("A"), q(alt(var("B"), seq(var("C"), var("D"))), 0, 1)), seq(q(seq(var("A"), var("B")), 1, -1), q(var("C"), 0, 1)), seq(var("A"), q(seq(var("B"), var("C")), 1, 2)),
+    seq(alt(seq(var("A"), var("B")), var("A")), q(var("C"), 0, 1)),
 ]
 DEFKINDS = [{"k": "gt", "c": 0}, {"k": "gt", "c": 1}, {"k": "lt", "c": 2}, {"k": "up", "c": 0}, {"k": "down", "c": 0}, {"k": "true", "c": 0},
             {"k": "sumle", "c": 3}, {"k": "sumle", "c": 5}, {"k": "cntle", "c": 2}]      # history-dependent: running aggregates over the match so far
